@@ -108,34 +108,25 @@ Definition wit_F1 : manifold (T := sf) := fun _ _ _ _ => sf_one.
 Definition wit_xs : list sf := [sf_div (ofZ SFNum 5) (ofZ SFNum 2)].
 Definition wit_idxs : list (nat * nat) := [(0, 0)%nat].
 
-Definition stale_lin_check : bool :=
-  match lin_call SFNum wit_g wit_F0 wit_idxs None 1 wit_xs with
-  | Ok (_, _, st) =>
-    match lin_call SFNum wit_g wit_F1 wit_idxs st 1 wit_xs, lin_call SFNum wit_g wit_F1 wit_idxs None 1 wit_xs with
-    | Ok (v, _, _), Ok (vf, _, _) =>
-        match v, vf with
-        | [a], [b] => sf_same a sf_zero && sf_same b sf_one
-        | _, _ => false
-        end
-    | _, _ => false
-    end
-  | Err _ => false
-  end.
-Definition stale_par_check : bool :=
-  match par_call SFNum wit_g wit_F0 wit_idxs None 1 wit_xs with
-  | Ok (_, _, st) =>
-    match par_call SFNum wit_g wit_F1 wit_idxs st 1 wit_xs, par_call SFNum wit_g wit_F1 wit_idxs None 1 wit_xs with
-    | Ok (v, _, _), Ok (vf, _, _) =>
-        match v, vf with
-        | [a], [b] => sf_same a sf_zero && sf_same b sf_one
-        | _, _ => false
-        end
-    | _, _ => false
-    end
-  | Err _ => false
-  end.
-Lemma stale_checks_true : stale_lin_check = true /\ stale_par_check = true.
-Proof. split; vm_compute; reflexivity. Qed.
+Definition wit_lin_st : lin_cache (T := sf) :=
+  Eval vm_compute in
+    match lin_call SFNum wit_g wit_F0 wit_idxs None 1 wit_xs with Ok (_, _, st) => st | Err _ => None end.
+Definition wit_par_st : par_cache (T := sf) :=
+  Eval vm_compute in
+    match par_call SFNum wit_g wit_F0 wit_idxs None 1 wit_xs with Ok (_, _, st) => st | Err _ => None end.
+
+Lemma wit_lin_first : exists v0 g0, lin_call SFNum wit_g wit_F0 wit_idxs None 1 wit_xs = Ok (v0, g0, wit_lin_st).
+Proof. do 2 eexists. vm_compute. reflexivity. Qed.
+Lemma wit_lin_second : exists gr st', lin_call SFNum wit_g wit_F1 wit_idxs wit_lin_st 1 wit_xs = Ok ([sf_zero], gr, st').
+Proof. do 2 eexists. vm_compute. reflexivity. Qed.
+Lemma wit_lin_fresh : exists gf stf, lin_call SFNum wit_g wit_F1 wit_idxs None 1 wit_xs = Ok ([sf_one], gf, stf).
+Proof. do 2 eexists. vm_compute. reflexivity. Qed.
+Lemma wit_par_first : exists v0 g0, par_call SFNum wit_g wit_F0 wit_idxs None 1 wit_xs = Ok (v0, g0, wit_par_st).
+Proof. do 2 eexists. vm_compute. reflexivity. Qed.
+Lemma wit_par_second : exists gr st', par_call SFNum wit_g wit_F1 wit_idxs wit_par_st 1 wit_xs = Ok ([sf_zero], gr, st').
+Proof. do 2 eexists. vm_compute. reflexivity. Qed.
+Lemma wit_par_fresh : exists gf stf, par_call SFNum wit_g wit_F1 wit_idxs None 1 wit_xs = Ok ([sf_one], gf, stf).
+Proof. do 2 eexists. vm_compute. reflexivity. Qed.
 
 Theorem cache_key_omits_function_refuted :
   (exists v0 g0 st v gr st' vf gf stf,
@@ -149,19 +140,9 @@ Theorem cache_key_omits_function_refuted :
      par_call SFNum wit_g wit_F1 wit_idxs None 1 wit_xs = Ok (vf, gf, stf) /\
      v = [sf_zero] /\ vf = [sf_one]).
 Proof.
-  destruct stale_checks_true as [HL HP]. split.
-  - unfold stale_lin_check in HL.
-    destruct (lin_call SFNum wit_g wit_F0 wit_idxs None 1 wit_xs) as [[[v0 g0] st]|]; [|discriminate].
-    destruct (lin_call SFNum wit_g wit_F1 wit_idxs st 1 wit_xs) as [[[v gr] st']|]; [|discriminate].
-    destruct (lin_call SFNum wit_g wit_F1 wit_idxs None 1 wit_xs) as [[[vf gf] stf]|]; [|discriminate].
-    destruct v as [|a [|? ?]]; try discriminate. destruct vf as [|b [|? ?]]; try discriminate.
-    apply andb_prop in HL. destruct HL as [Ha Hb]. apply sf_same_eq in Ha. apply sf_same_eq in Hb. subst.
-    do 9 eexists. repeat split; reflexivity.
-  - unfold stale_par_check in HP.
-    destruct (par_call SFNum wit_g wit_F0 wit_idxs None 1 wit_xs) as [[[v0 g0] st]|]; [|discriminate].
-    destruct (par_call SFNum wit_g wit_F1 wit_idxs st 1 wit_xs) as [[[v gr] st']|]; [|discriminate].
-    destruct (par_call SFNum wit_g wit_F1 wit_idxs None 1 wit_xs) as [[[vf gf] stf]|]; [|discriminate].
-    destruct v as [|a [|? ?]]; try discriminate. destruct vf as [|b [|? ?]]; try discriminate.
-    apply andb_prop in HP. destruct HP as [Ha Hb]. apply sf_same_eq in Ha. apply sf_same_eq in Hb. subst.
-    do 9 eexists. repeat split; reflexivity.
+  split.
+  - destruct wit_lin_first as [v0 [g0 E0]]. destruct wit_lin_second as [gr [st' E1]]. destruct wit_lin_fresh as [gf [stf E2]].
+    exists v0, g0, wit_lin_st, [sf_zero], gr, st', [sf_one], gf, stf. repeat split; assumption.
+  - destruct wit_par_first as [v0 [g0 E0]]. destruct wit_par_second as [gr [st' E1]]. destruct wit_par_fresh as [gf [stf E2]].
+    exists v0, g0, wit_par_st, [sf_zero], gr, st', [sf_one], gf, stf. repeat split; assumption.
 Qed.
